@@ -37,7 +37,7 @@ func init() {
 		ID:    "C13",
 		Level: "exploration",
 		Race:  true,
-		Rule: "(a) sequential: a fresh client.Runtime per case with a tagged consumer registry (subset of 9 lower-case types, with/without '*/*', default media type registered or not) and a scripted response " +
+		Rule: "(a) sequential: a fresh client.Runtime per case with a tagged consumer registry (subset of 9 lower-case types, with/without '*/*', default media type registered or not; 1 in 4 DefaultMediaType values spelled with parameters / OWS / capitals, half of those cases answered without Content-Type) and a scripted response " +
 			"(Content-Type registered / unregistered / absent / empty / malformed / grey, spelled plain, with parameters, OWS, mixed case; 17 status codes; custom reason phrase; header multiset; body of 0 bytes..1 MiB) served by an in-memory RoundTripper (whose body, like net/http's, fails once the request context is done or the body was closed) or a loopback server (1 in 4: the head is flushed first and the body is written once the reader has been entered, a logical event); " +
 			"the ClientResponseReader records the consumer it was handed (by tag), Code/Message/GetHeader/GetHeaders/Body, the Content-Type and Content-Length headers it is shown, and looks every scripted header up under its canonical, lower-case and upper-case name; tagged RoundTrippers and context values tell which client and which context carried the call (operation-level vs Runtime-level; live, cancelled, nil, deadline already expired, deadline hours away; request timeout default / 0 / hours); a share of cases runs with Runtime.Debug on (null logger). Redirect policy: a 302 + Location answer with the operation client stopping/following, the Runtime made with New or NewWithClient (policy stopping/following, consultations counted), and the mirror cases without an operation client. " +
 			"The body reaches the client at once or in pieces (1 case in 4: in memory no Read crosses the end of a piece - a Read may return less than asked for while more is to come; over loopback every piece is written and flushed on its own); the reader reads it to the end and, 1 in 4, closes it itself once or twice before Submit closes it again. " +
@@ -49,7 +49,7 @@ func init() {
 			"2 in 5 with Runtime.BasePath assigned after client.New, 1 in 8 with Debug on, 1 in 8 with a caller-supplied response adapter, 1 in 4 with ONE operation value submitted by all goroutines; verifhook scheduler (per-goroutine PRNG: nothing / Gosched x k / sleep 10-300us at cl.submit.built, clientReady, beforeDo, afterDo; lock-free, so that it adds no happens-before edges), race detector on. " +
 			"non-trivial: sequential = (registry shape, header kind+spelling+registration, client/context configuration) tuples; sequences = the tuple of their steps' (history, registry change, header feature, client/context configuration); concurrent = runs whose first calls overlapped between cl.submit.built and cl.submit.clientReady (from hook timestamps), distinct by the hash of the merged hook trace",
 		Assumptions: []string{
-			"registry keys and Runtime.DefaultMediaType are lower case without parameters",
+			"registry keys are lower case without parameters; Runtime.DefaultMediaType is a well-formed media type, bare and lower case or (1 case in 4) spelled with parameters, optional white space and/or capital letters, as the request side of the same Runtime accepts it: the default media type is the type/subtype it names (parameters ignored, case-insensitively), exactly as for the media type a response declares",
 			"a malformed Content-Type (type/subtype part not a token pair) has no media type: the call may fail or use the catch-all consumer, never another consumer; its error must mention the value or the words 'content type'",
 			"grey-zone values (empty value, lone token without '/', irregular parameter section) may be read as 'media type = part before the first ;' or rejected; only 'never a different consumer' is judged there",
 			"status 1xx is not generated, and 3xx-with-Location only in the redirect-policy sub-workload, where the governing client's CheckRedirect decides what the reader sees (net/http handles them before the Runtime sees the response); over loopback the reason phrase is the standard one and 204/304 carry no body",
@@ -336,14 +336,29 @@ func choose(registry []string, mt string) (tag string, ok bool) {
 	return "", false
 }
 
+// defaultType is the media type that Runtime.DefaultMediaType names. The setting is a media type as a description spells it
+// ("application/json; charset=utf-8", "Application/JSON"): like the media type of a response it selects the consumer by its
+// type/subtype, parameters ignored, whatever the letter case. spelled is "" for a bare lower-case value, else the class of the
+// spelling. A value that is no well-formed media type (never generated) is taken as it stands.
+func defaultType(def string) (mt, spelled string) {
+	if k, t := classifyCT(true, def); k == hValid {
+		if t == def {
+			return t, ""
+		}
+		return t, "/default-spelled-" + spelling(def)
+	}
+	return def, ""
+}
+
 func expectFor(c *Case, call *Call) want {
 	w := want{}
 	w.kind, w.mt = classifyCT(call.HasCT, string(call.CT))
 	catchAll := contains(c.Registry, "*/*")
 	switch w.kind {
 	case hAbsent:
-		w.mt = c.DefaultMT
-		w.feature = "absent-header"
+		var spelled string
+		w.mt, spelled = defaultType(c.DefaultMT)
+		w.feature = "absent-header" + spelled
 	case hValid:
 		w.feature = "valid-" + spelling(string(call.CT))
 	case hMalformed:
@@ -360,7 +375,9 @@ func expectFor(c *Case, call *Call) want {
 		w.feature = w.kind.String() + "-header"
 		w.mayFail = true
 		if w.kind == hEmpty {
-			w.mt = c.DefaultMT
+			var spelled string
+			w.mt, spelled = defaultType(c.DefaultMT)
+			w.feature += spelled
 		}
 		if t, ok := choose(c.Registry, w.mt); ok {
 			w.allowed = append(w.allowed, t)
@@ -1385,8 +1402,12 @@ func registryShape(c *Case) string {
 	if contains(c.Registry, "*/*") {
 		s += "+catchall"
 	}
-	if contains(c.Registry, c.DefaultMT) {
+	def, spelled := defaultType(c.DefaultMT)
+	if contains(c.Registry, def) {
 		s += "+default-registered"
+	}
+	if spelled != "" {
+		s += "+" + spelled[1:]
 	}
 	return s
 }
@@ -1414,6 +1435,9 @@ func runCase(m *mon.M, c *Case) {
 		m.Eval(1)
 		w := expectFor(c, call)
 		m.Class("seq:" + w.kind.String())
+		if strings.Contains(w.feature, "/default-spelled-") {
+			m.Class("seq-default:" + w.feature)
+		}
 		if s.readerRuns > 0 {
 			m.Class("seq-consumer:" + s.consumer)
 		} else {
